@@ -385,6 +385,8 @@ ensures
     x.guard('new', "pub fn new(text: &'a str) -> LexedStr<'a> { let mut conv = Converter::new(text); for token in oq3_lexer::tokenize(&text[conv.offset..]) { let token_text = &text[conv.offset..][..token.len as usize]; conv.extend_token(&token.kind, token_text); } conv.finalize_with_eof() }",
             impl=r"LexedStr<'a>", why='the chain lemma c14_chain_table_from_tokens restates this loop')
     U.raw(open(__file__.replace('units/lex.py', 'contracts/lex.lemmas.rs')).read(), note='lemmas')
+    for _fc in (U.file(L), U.file(K), U.file(X)):
+        _fc.guard_rest('not under contract in this unit; text pinned (contracts/trusted_hashes.json)')
     U.assumed_dep = [
         'char::is_ascii / is_ascii_digit: documented behaviour (assume_specification)',
         'unicode_xid::is_xid_start/is_xid_continue and unicode_properties::is_emoji_char: uninterpreted tables, plus the ASCII facts of UAX #31 (axiom_xid_start_ascii / axiom_xid_continue_ascii)',
